@@ -345,6 +345,7 @@ type rphStats struct {
 	acks, acksMulti, dupTrue, dupForced, emptyAck, panics, queued, alarmAcks int
 	opKinds                                                                   map[string]int
 	ackSamples                                                                [][][2]int64
+	truncCut                                                                  int
 }
 
 func genHistRandom(r *u.Rng) []histOp {
@@ -475,6 +476,8 @@ func (o hOp) term() string {
 		return u.App("IsDup", u.Z(o.pn), u.Z(o.lvl))
 	case "alarm":
 		return "Alarm"
+	case "trunc":
+		return u.App("Trunc", u.Z(o.lvl), u.Z(o.pn))
 	}
 	return "Peek"
 }
@@ -491,6 +494,8 @@ func (o hOp) String() string {
 		return fmt.Sprintf("GetAck(lvl=%d,now=%d,onlyIfQueued=%v)", o.lvl, o.t, o.only)
 	case "isdup":
 		return fmt.Sprintf("IsDup(pn=%d,lvl=%d)", o.pn, o.lvl)
+	case "trunc":
+		return fmt.Sprintf("Truncate(lvl=%d,maxSize=%d)", o.lvl, o.t)
 	}
 	return o.kind
 }
@@ -560,6 +565,7 @@ type handlerRunner struct {
 	failed   []string
 	free     bool // arbitrary IgnoreBelow thresholds instead of Largest+1 of an ACK generated earlier
 	witness  bool // replay of the out-of-discipline witness: an empty ACK is reported as INFO only
+	lastFrame [3]*wire.AckFrame // the frame GetAckFrame returned last per space (the same struct as the tracker's lastAck)
 	owes     bool // caller discipline: an IgnorePacketsBelow call is not yet followed by an accepted app-data packet
 	info     []string
 	stopped  bool
@@ -648,6 +654,22 @@ func (x *handlerRunner) do(o hOp) (out string, dupFlag bool) {
 		case "isdup":
 			dupFlag = x.h.IsPotentiallyDuplicate(protocol.PacketNumber(o.pn), protocol.EncryptionLevel(o.lvl))
 			res = u.App("RB", u.B(dupFlag))
+		case "trunc":
+			// what the packet packer does with the frame it got: ack.Truncate(maxSize, version)
+			f := x.lastFrame[sp]
+			before := len(f.AckRanges)
+			f.Truncate(protocol.ByteCount(o.t), protocol.Version1)
+			if before > 0 && len(f.AckRanges) == 0 {
+				x.fail("recvph/truncate-empty", fmt.Sprintf("Truncate(%d) left no range of %d", o.t, before))
+			}
+			x.terms = append(x.terms, u.Pair(u.App("Trunc", u.Z(o.lvl), u.Z(int64(len(f.AckRanges)))), "ROk"))
+			x.st.handlerOps++
+			x.st.opKinds[o.kind]++
+			if sp == 2 && x.hasLastAck && len(x.lastAck) > len(f.AckRanges) {
+				x.lastAck = x.lastAck[:len(f.AckRanges)]
+			}
+			x.st.truncCut += before - len(f.AckRanges)
+			res = "ROk"
 		case "alarm":
 			res = u.App("RZ", u.Z(int64(x.h.GetAlarmTimeout())))
 		case "peek":
@@ -665,7 +687,9 @@ func (x *handlerRunner) do(o hOp) (out string, dupFlag bool) {
 		return "panic", false
 	}
 	x.log[len(x.log)-1] += "=>" + strings.TrimSuffix(strings.TrimPrefix(res, "("), ")")
-	x.emit(o, res)
+	if o.kind != "trunc" {
+		x.emit(o, res)
+	}
 	after := ackhandler.VerifRPHSnapshot(x.h)
 
 	switch o.kind {
@@ -735,6 +759,7 @@ func (x *handlerRunner) do(o hOp) (out string, dupFlag bool) {
 		}
 	case "drop":
 		if sp >= 0 && sp < 2 {
+			x.lastFrame[sp] = nil
 			x.dropped[sp] = true
 			x.pendingHS[sp] = false
 		}
@@ -748,6 +773,7 @@ func (x *handlerRunner) do(o hOp) (out string, dupFlag bool) {
 		}
 	case "getack":
 		if ack != nil && sp >= 0 && o.lvl != int64(protocol.Encryption0RTT) {
+			x.lastFrame[sp] = ack
 			x.st.acks++
 			if len(x.st.ackSamples) < 400 && len(ackRs) > 0 && len(ackRs) <= 12 {
 				x.st.ackSamples = append(x.st.ackSamples, append([][2]int64{}, ackRs...))
@@ -968,6 +994,10 @@ func genHandlerCase(w *bufio.Writer, r *u.Rng, mode int, st *rphStats) {
 				continue // caller discipline: no ACK is requested before the packet that carried the confirmation is registered
 			}
 			x.do(hOp{kind: "getack", lvl: lvl, t: now, only: r.Chance(7, 10)})
+			// the packer truncates the frame it received to the space left in the packet
+			if sp >= 0 && !x.stopped && x.lastFrame[sp] != nil && lvl != int64(protocol.Encryption0RTT) && len(x.lastFrame[sp].AckRanges) >= 2 && r.Chance(1, 3) {
+				x.do(hOp{kind: "trunc", lvl: lvl, t: int64(r.Pick(8, 20, 24, 28, 32, 40, 60, 1200))})
+			}
 		case v < 86: // the peer confirmed one of our ACKs: forget below
 			if mode == 1 {
 				p := next[2] + int64(r.Range(-6, 3))
@@ -1066,7 +1096,7 @@ func runRecvPH(w *bufio.Writer, seed uint64, n int, _ []string) {
 	fmt.Fprintf(w, "DIST\tvalidate+ackspacket\t%d\n", nValid)
 	fmt.Fprintf(w, "DIST\thist-orders\t%d\nDIST\thist-random+long\t%d\n", nOrders, nHist-nOrders)
 	fmt.Fprintf(w, "DIST\thandler-connection-like\t%d\nDIST\thandler-free\t%d\nDIST\thandler-long\t%d\n", modes[0], modes[1], modes[2])
-	fmt.Fprintf(w, "DIST\tcases-with-range-limit-pruning\t%d\n", st.pruned)
+	fmt.Fprintf(w, "DIST\tcases-with-range-limit-pruning\t%d\nDIST\tranges-cut-by-Truncate\t%d\n", st.pruned, st.truncCut)
 	fmt.Fprintf(w, "DIST\tacks\t%d\nDIST\tacks-multirange\t%d\nDIST\tacks-by-alarm\t%d\nDIST\tdup-verdict-true\t%d\nDIST\tdup-forced\t%d\nDIST\tempty-acks\t%d\nDIST\tpanics\t%d\n",
 		st.acks, st.acksMulti, st.alarmAcks, st.dupTrue, st.dupForced, st.emptyAck, st.panics)
 	ks := make([]string, 0)
